@@ -12,7 +12,7 @@ from vlib.core import Leg, Result, _hyp_settings, mix_seed, VERIF
 
 ID = 'C15'
 RULE = ('cases: nesting construct in {parentheses, brackets, CASE, function calls, subqueries, BEGIN, IF, operator/comparison/comma/dot/AS/typecast chains, unclosed '
-        'openers, stray closers, mixtures, comment-laden parentheses, CREATE..BEGIN bodies} x depth in [0.05, 3] x recursion limit x limit in {100,150,300,1000} '
+        'openers, stray closers, mixtures, comment-laden parentheses, CREATE..BEGIN bodies, parentheses/calls/brackets/CASE with an operator, comparison or comma list at every level} x depth in [0.05, 3] x recursion limit x limit in {100,150,300,1000} '
         '(thorough adds 500,3000) x entry point in {parse, parsestream, split, format + drawn valid option set}; drawn by Hypothesis, executed in a plain-Python child '
         'process whose recursion limit is set after the imports; outcome must be ok (result passes round-trip and tree invariants computed by an iterative walk, '
         'str() at the caller\'s stack depth) or SQLParseError; after every case an ordinary split/parse call must still work; a child that dies is a violation. '
